@@ -258,6 +258,24 @@ int main(int argc, char** argv)
             std::printf("F N:transfer args=%s;%s;%s :: same=%d transfer=%s source=%s target=%s throws=%s\n", show(p).c_str(), show(t).c_str(), show(e).c_str(),
                         int(&with == &without), show(with.transfer()).c_str(), show(with.source()).c_str(), show(with.target()).c_str(), show(with.throws()).c_str());
          }
+         else if (key == "N:reserved" and ix.size() == 2) {
+            // factories given a name that is a RESERVED word (the identifier is a process-wide constant): the node still reports the
+            // name and the type it was requested with
+            static const char* const known[] = {
+#define KNOWNWORD(X) X,
+#include "knownwords.def"
+#undef KNOWNWORD
+            };
+            const std::size_t nk = sizeof known / sizeof known[0];
+            std::string word = known[std::size_t(U(ix[0], long(nk)))];
+            auto& id = w.lex.get_identifier(ipr::util::word_view(reinterpret_cast<const char8_t*>(word.data()), word.size()));
+            auto& t = *w.types[U(ix[1], 12)];
+            auto& sym = w.lex.get_symbol(id, t);
+            auto* idx = w.lex.make_id_expr(id, { &t });
+            std::printf("F N:reserved args=%s;%s :: symbol.name_is_the_identifier=%d symbol.type=%s id_expr.name_is_the_identifier=%d id_expr.type=%s\n", word.c_str(), show(t).c_str(),
+                        int(&sym.name() == &static_cast<const ipr::Name&>(id)), show(sym.type()).c_str(),
+                        int(&idx->name() == &static_cast<const ipr::Name&>(id)), guarded([&] { return show(idx->type()); }).c_str());
+         }
          else if (not dispatch(w, key, ix)) std::printf("F %s args=- :: unknown-factory\n", key.c_str());
       }
       catch (const std::exception& e) { std::printf("F %s args=- :: harness-error(%s)\n", key.c_str(), e.what()); }
